@@ -500,6 +500,38 @@ func vc03BoundaryPoly(kind int, seed uint64) Poly {
 	return p
 }
 
+// vc03SignPattern returns the polynomial whose coefficient i is
+// sign * mag * (-1)^popcount(i & mask): the inputs for which the additions of
+// the butterfly networks all accumulate in the same direction (worst case for
+// the lazy reductions). variant selects the magnitude: q, q-1, or q on a subset.
+func vc03SignPattern(mask, sign, variant int) Poly {
+	var p Poly
+	for i := range p {
+		v := vc03Q
+		switch variant {
+		case 1:
+			v = vc03Q - 1
+		case 2:
+			if i%2 == 1 {
+				v = 0
+			}
+		case 3:
+			if i%2 == 0 {
+				v = 0
+			}
+		}
+		pc := 0
+		for b := i & mask; b != 0; b &= b - 1 {
+			pc++
+		}
+		if pc%2 == 1 {
+			v = -v
+		}
+		p[i] = int16(sign * v)
+	}
+	return p
+}
+
 func TestVC03NTT(t *testing.T) {
 	defer vlib.Done()
 	if !vc03SelfTest(t) {
@@ -539,6 +571,38 @@ func TestVC03NTT(t *testing.T) {
 		vlib.EvalN(sub, cnt)
 		if be == "generic" && vlib.Shard == 0 {
 			vlib.Exhaustive("NTT/MulHat/InvNTT product of every monomial pair X^i * X^j (i,j < 256) with boundary coefficients", 65536, "each arithmetic back-end; all shards together; against the negacyclic rule X^256 = -1")
+		}
+
+		// (a') all 256 sign patterns x 2 polarities x 4 magnitude variants (split by shard on the mask)
+		sub = "wb/NTT-sign-patterns/" + be
+		for mask := 0; mask < 256; mask++ {
+			if mask%vlib.NShards != vlib.Shard {
+				continue
+			}
+			for sv := 0; sv < 8; sv++ {
+				a := vc03SignPattern(mask, 1-2*(sv&1), sv>>1)
+				x := a
+				x.NTT()
+				x.Detangle()
+				y := a
+				y.Tangle()
+				y.InvNTT()
+				inv := mlkem.InvNTT(vc03ToRef(&a))
+				ok := *vc03ToRef(&x) == *mlkem.NTT(vc03ToRef(&a))
+				for i := range y {
+					if int(y[i]) > vc03Q || int(y[i]) < -vc03Q || vc03Mod(int64(y[i])) != vc03Mod(int64(inv[i])<<16) {
+						ok = false
+					}
+				}
+				if !ok {
+					vlib.ReportDirect(t, "C03/wb/NTT-sign-pattern/"+be, fmt.Sprintf("sign pattern mask %#x polarity/variant %d: NTT or InvNTT differs from the defining sums (or leaves the documented range)", mask, sv), map[string]interface{}{"mask": mask, "sv": sv, "backend": be})
+					return
+				}
+				vlib.Eval(sub)
+			}
+		}
+		if be == "generic" && vlib.Shard == 0 {
+			vlib.Exhaustive("NTT and InvNTT of all +-q sign-pattern polynomials (-1)^popcount(i&mask), 256 masks x 2 polarities x 4 magnitude variants", 2048, "each arithmetic back-end; all shards together; worst-case accumulation for the lazy reductions")
 		}
 
 		// (b) boundary and random polynomials: NTT against the defining sums (FIPS 203 eq. 4.12),
@@ -719,14 +783,34 @@ func TestVC03BackendDiff(t *testing.T) {
 	}
 	defer func() { cpu.X86.HasAVX2 = true }()
 	sub := "wb/generic-vs-avx2"
-	rounds := vlib.N(150000, 1000000)
-	buf := make([]byte, 512)
+	rounds := vlib.N(200000, 1500000)
+	// splitmix64: a fixed function of (seed, shard), so the sweep is reproducible
+	state := uint64(vlib.Seed)<<32 ^ uint64(vlib.Shard)<<20 ^ 0x9e3779b97f4a7c15
+	next := func() uint64 {
+		state += 0x9e3779b97f4a7c15
+		z := state
+		z = (z ^ (z >> 30)) * 0xbf58476d1ce4e5b9
+		z = (z ^ (z >> 27)) * 0x94d049bb133111eb
+		return z ^ (z >> 31)
+	}
 	for r := 0; r < rounds; r++ {
-		vlib.ExpandInto(buf, uint64(vlib.Seed)<<44^uint64(vlib.Shard)<<36^uint64(r))
 		var a Poly
+		var w uint64
+		pat := vc03SignPattern(int(next()&255), 1, 0)
 		for i := range a {
-			v := int(buf[2*i]) | int(buf[2*i+1])<<8
-			switch r % 4 {
+			if i%4 == 0 {
+				w = next()
+			}
+			v := int(w & 0xffff)
+			w >>= 16
+			switch r % 6 {
+			case 4: // sign pattern with random magnitudes in [q/2, q]
+				a[i] = int16(int(pat[i]) / vc03Q * (vc03Q/2 + v%(vc03Q/2+2)))
+			case 5: // sign pattern with a few coefficients flipped
+				a[i] = pat[i]
+				if v%32 == 0 {
+					a[i] = -a[i]
+				}
 			case 0:
 				a[i] = int16(v%(2*vc03Q+1) - vc03Q)
 			case 1:
@@ -751,15 +835,15 @@ func TestVC03BackendDiff(t *testing.T) {
 		vn.Detangle()
 		for i := range a {
 			if g[i] > vc03Q || g[i] < -vc03Q || v[i] > vc03Q || v[i] < -vc03Q || vc03Mod(int64(g[i])) != vc03Mod(int64(v[i])) {
-				vlib.ReportDirect(t, "C03/wb/InvNTT/generic-vs-avx2", fmt.Sprintf("input kind %d round %d: coefficient %d is %d (generic) vs %d (AVX2); documented: equal mod q and in [-q,q]", r%4, r, i, g[i], v[i]), map[string]interface{}{"r": r, "seed": vlib.Seed, "shard": vlib.Shard})
+				vlib.ReportDirect(t, "C03/wb/InvNTT/generic-vs-avx2", fmt.Sprintf("input kind %d round %d: coefficient %d is %d (generic) vs %d (AVX2); documented: equal mod q and in [-q,q]", r%6, r, i, g[i], v[i]), map[string]interface{}{"r": r, "seed": vlib.Seed, "shard": vlib.Shard})
 				return
 			}
 			if gn[i] > 7*vc03Q || gn[i] < -7*vc03Q || vn[i] > 7*vc03Q || vn[i] < -7*vc03Q || vc03Mod(int64(gn[i])) != vc03Mod(int64(vn[i])) {
-				vlib.ReportDirect(t, "C03/wb/NTT/generic-vs-avx2", fmt.Sprintf("input kind %d round %d: coefficient %d is %d (generic) vs %d (AVX2); documented: equal mod q and in [-7q,7q]", r%4, r, i, gn[i], vn[i]), map[string]interface{}{"r": r, "seed": vlib.Seed, "shard": vlib.Shard})
+				vlib.ReportDirect(t, "C03/wb/NTT/generic-vs-avx2", fmt.Sprintf("input kind %d round %d: coefficient %d is %d (generic) vs %d (AVX2); documented: equal mod q and in [-7q,7q]", r%6, r, i, gn[i], vn[i]), map[string]interface{}{"r": r, "seed": vlib.Seed, "shard": vlib.Shard})
 				return
 			}
 		}
 	}
 	vlib.EvalN(sub, int64(rounds))
-	vlib.ClassN(sub, "random polynomials with |coefficient| <= q (4 distributions)", int64(rounds))
+	vlib.ClassN(sub, "random polynomials with |coefficient| <= q (6 distributions)", int64(rounds))
 }
